@@ -1,8 +1,10 @@
 """C02 - postconditions gate every normal return; results and exceptions pass unchanged."""
+import copy
+
 import ckprop
 import genck
 import implck
-from ckprop import run_impl, model_view, shrink_candidates  # noqa: F401
+from ckprop import model_view, shrink_candidates  # noqa: F401
 
 DESCRIPTION = ("Lean: Props/C02.lean. Tie + oracle: after a normal return the postconditions of the chain are evaluated "
                "in order up to the first falsy one; all truthy -> the very object returned by the body; body raises -> "
@@ -25,7 +27,13 @@ def cases(tier, rng):
         for c in genck.exhaustive_post(["method", "function"], [False, True], 3, 3):
             yield "exh3", c
     for _ in range(40000 if thorough else 4000):
-        yield "rnd", genck.random_case(rng, ans_weights=AW, falsy_errors=True, raising_errors=True, max_posts=3)
+        c = genck.random_case(rng, ans_weights=AW, falsy_errors=True, raising_errors=True, max_posts=3)
+        yield "rnd", c
+        if rng.random() < 0.15:
+            # the same call again after a call whose body raised (Exception / BaseException alike)
+            c2 = copy.deepcopy(c)
+            c2["after"] = {"raises": {"e": genck.exc(rng.choice([7100, 7101, 7600, 7601, 7604]), rng.random() < 0.5)}}
+            yield "after-fault", c2
 
 
 def search_cases(rng, hint, n):
@@ -119,3 +127,14 @@ def stats(case, mo, io, dist):
     nf = sum(1 for c, a in case["cond"] if ckprop.ans_kind(a) == "val" and a["val"]["t"] == "falsy"
              and c in mo["posts"])
     dist["falsy_posts>=2" if nf >= 2 else "falsy_posts<2"] += 1
+
+
+def run_impl(case):
+    if "after" in case:
+        first = copy.deepcopy(case)
+        first["body"] = case["after"]
+        first["cond"] = [[c, genck.T(100 + c)] for c, _a in case["cond"]]
+        first["capture"] = [[s_, genck.T(200 + s_)] for s_, _a in case["capture"]]
+        _a, b = implck.run_seq([first, case])
+        return b
+    return ckprop.run_impl(case)
